@@ -67,7 +67,7 @@ def run(c):
 
     # 3. concurrent reporters, TLC explains the linearisation
     if not c.replay:
-        rounds, G, P, M = (5200, 3, 6, 2) if q else (16000, 4, 7, 3)   # 3 of 4 rounds are focused (8 prefixes x 9 x 9 report pairs, repeated)
+        rounds, G, P, M = (5200, 3, 6, 2) if q else (8000, 3, 7, 3)   # 3 of 4 rounds are focused (8 prefixes x 9 x 9 report pairs, repeated)
         nbatches = 1 if q else 4
         for bno in range(nbatches):
             tr = os.path.join(c.work, "conc%d.ndjson" % bno)
